@@ -431,6 +431,9 @@ Definition wf_class (D : mdesc) (c : cdesc) : bool :=
   && match cd_base c with None => true | Some _ => false end
   && forallb (wf_field D) (cd_fields c)
   && distinct (map fd_name (cd_fields c))
+  (* element names are distinct (the theorem's reading of "order by field declaration" needs no
+     tie-break between equally named elements) *)
+  && distinct (map field_local (filter (is_kind KElement) (cd_fields c)))
   && (length (filter (is_kind KText) (cd_fields c)) <=? 1)%nat
   && seq_contiguous [] None (filter (fun f => is_content_kind (fd_kind f)) (cd_fields c))
   (* attribute names are distinct whatever the class namespace, and not the xsi markers *)
